@@ -5,7 +5,7 @@ import gen as G
 import codec, targets, cont
 
 MODEL_TARGETS = ["model/De.vo", "model/Reader.vo"]
-COQ_TARGETS = ["props/C11.vo"]
+COQ_TARGETS = ["props/C11.vo", "proofs/ConstsTie.vo"]
 THEOREMS = [("C11", ["C11_varint", "C11_de", "C11_datum"])]
 PROOF_FILES = ["proofs/ReaderProofs.v", "proofs/VarintProofs.v", "props/C11.v"]
 TRUSTED_BASE = [
